@@ -4,7 +4,23 @@
 package parser
 
 // Parser representation invariant: the lexer it reads from is in a consistent state.
-//@ pred PInv(p *Parser) = p.l != nil && ValidUTF8(p.l.input) && LexInv(p.l)
+//@ pred PInv(p *Parser) = p.l != nil && ValidUTF8(p.l.input) && LexInv(p.l) && Window(p)
+// the five-token window: every token has a line range inside what the lexer has read, and first lines do not decrease
+// along the window nor into the tokens still to come (C16: markers name real lines; C18: error ranges are ordered)
+//@ pred Window(p *Parser) = TokLines(p.curToken, p.l.lineNumber) && TokLines(p.peekToken, p.l.lineNumber) && TokLines(p.peek2Token, p.l.lineNumber)
+//@   && TokLines(p.peek3Token, p.l.lineNumber) && TokLines(p.peek4Token, p.l.lineNumber)
+//@   && p.curToken.LineNumber <= p.peekToken.LineNumber && p.peekToken.LineNumber <= p.peek2Token.LineNumber && p.peek2Token.LineNumber <= p.peek3Token.LineNumber
+//@   && p.peek3Token.LineNumber <= p.peek4Token.LineNumber && p.peek4Token.LineNumber <= MinLine(p.l)
+
+// errors are built from tokens with a proper line range: 1 <= start <= end (C18)
+//@ func NewParseError
+//@   requires [C18:located] 1 <= tok.LineNumber && tok.LineNumber <= tok.EndLineNumber
+//@   ensures [C18:err] result != nil && boxis(result, ParseError) && result.LineNumberStart == tok.LineNumber && result.LineNumberEnd == tok.EndLineNumber
+//@ end
+//@ func NewRangeParseError
+//@   requires [C18:located] 1 <= tok1.LineNumber && tok1.LineNumber <= tok2.EndLineNumber
+//@   ensures [C18:err] result != nil && boxis(result, ParseError) && result.LineNumberStart == tok1.LineNumber && result.LineNumberEnd == tok2.EndLineNumber
+//@ end
 
 // ---- small pure helpers (C02, C09, C13) ----
 
@@ -57,10 +73,12 @@ package parser
 
 // ---- token window (C18, C20) ----
 
+//@ pred PLex(p *Parser) = p.l != nil && ValidUTF8(p.l.input) && LexInv(p.l)
 //@ func (p *Parser) nextToken
-//@   requires PInv(p)
+//@   requires PLex(p)
 //@   modifies p.curToken, p.peekToken, p.peek2Token, p.peek3Token, p.peek4Token, fields(p.l)
-//@   ensures [C18:window] PInv(p) && p.l.input == old(p.l.input)
+//@   ensures [C18:window] PLex(p) && p.l == old(p.l) && p.l.input == old(p.l.input) && old(p.l.lineNumber) <= p.l.lineNumber
+//@   ensures [C16,C18:window-new] TokLines(p.peek4Token, p.l.lineNumber) && old(MinLine(p.l)) <= p.peek4Token.LineNumber && p.peek4Token.LineNumber <= MinLine(p.l)
 //@   ensures [C18,C20:shift] p.curToken == old(p.peekToken) && p.peekToken == old(p.peek2Token) && p.peek2Token == old(p.peek3Token) && p.peek3Token == old(p.peek4Token)
 //@ end
 
@@ -71,6 +89,7 @@ package parser
 //@   ensures [C18,C20:expect] (result == nil) == (old(p.peekToken.Type) == expectedType)
 //@   ensures [C18,C20:expect-shift] result == nil ==> (p.curToken == old(p.peekToken) && p.peekToken == old(p.peek2Token) && p.peek2Token == old(p.peek3Token) && p.peek3Token == old(p.peek4Token))
 //@   ensures [C18:expect-stay] result != nil ==> (p.curToken == old(p.curToken) && p.peekToken == old(p.peekToken) && p.peek2Token == old(p.peek2Token) && boxis(result, ParseError) && result.LineNumberStart == p.peekToken.LineNumber && result.LineNumberEnd == p.peekToken.EndLineNumber)
+//@   ensures [C18:lines-mono] old(p.curToken.LineNumber) <= p.curToken.LineNumber
 //@ end
 
 // ---- scope modifiers (C15) ----
@@ -83,6 +102,7 @@ package parser
 //@   ensures [C15:mod-explicit] (old(p.peekToken.Type) == token.LPAREN && (old(p.peek2Token.Type) == token.GLOBAL || old(p.peek2Token.Type) == token.LOCAL) && old(p.peek3Token.Type) == token.RPAREN)
 //@        ==> (result1 == nil && result0 == old(p.peek2Token.Type) && p.curToken == old(p.peek3Token) && p.peekToken == old(p.peek4Token))
 //@   ensures [C15:mod-error] (old(p.peekToken.Type) == token.LPAREN && !((old(p.peek2Token.Type) == token.GLOBAL || old(p.peek2Token.Type) == token.LOCAL) && old(p.peek3Token.Type) == token.RPAREN)) ==> result1 != nil
+//@   ensures [C18:lines-mono] old(p.curToken.LineNumber) <= p.curToken.LineNumber
 //@ end
 
 // ---- format() (C07, C17, C18) ----
@@ -199,6 +219,8 @@ package parser
 //@   nobody
 //@   params p
 //@   requires [C18:pstate] PState(p)
+//@   ensures [C18:lines-mono] old(p.curToken.LineNumber) <= p.curToken.LineNumber
+//@   loopinv [C18:lines-mono-inv] old(p.curToken.LineNumber) <= p.curToken.LineNumber && pre(p.curToken.LineNumber) <= p.curToken.LineNumber
 //@   modifies p.curToken, p.peekToken, p.peek2Token, p.peek3Token, p.peek4Token, p.breakStack, p.continueStack, p.fonts, fields(p.l)
 //@   ensures [C18:pstate] PState(p) && PSame(p, old(p.l), old(p.l.input)) && PMaps(p, old(p.constants), old(p.inlineTextsSet), old(p.inlineTextCounts), old(p.inlineMovementsSet), old(p.inlineMovementCounts))
 //@   loopinv [C18:pstate-inv] PState(p) && PSame(p, old(p.l), old(p.l.input)) && PMaps(p, old(p.constants), old(p.inlineTextsSet), old(p.inlineTextCounts), old(p.inlineMovementsSet), old(p.inlineMovementCounts))
@@ -209,6 +231,8 @@ package parser
 //@   nobody
 //@   params p
 //@   requires [C18:pstate] PState(p)
+//@   ensures [C18:lines-mono] old(p.curToken.LineNumber) <= p.curToken.LineNumber
+//@   loopinv [C18:lines-mono-inv] old(p.curToken.LineNumber) <= p.curToken.LineNumber && pre(p.curToken.LineNumber) <= p.curToken.LineNumber
 //@   modifies fields(p), fields(p.l)
 //@   ensures [C18:pstate] PState(p) && PSame(p, old(p.l), old(p.l.input)) && PMaps(p, old(p.constants), old(p.inlineTextsSet), old(p.inlineTextCounts), old(p.inlineMovementsSet), old(p.inlineMovementCounts))
 //@   loopinv [C18:pstate-inv] PState(p) && PSame(p, old(p.l), old(p.l.input)) && PMaps(p, old(p.constants), old(p.inlineTextsSet), old(p.inlineTextCounts), old(p.inlineMovementsSet), old(p.inlineMovementCounts))
@@ -219,6 +243,8 @@ package parser
 //@   nobody
 //@   params p
 //@   requires [C18:pstate] PState(p)
+//@   ensures [C18:lines-mono] old(p.curToken.LineNumber) <= p.curToken.LineNumber
+//@   loopinv [C18:lines-mono-inv] old(p.curToken.LineNumber) <= p.curToken.LineNumber && pre(p.curToken.LineNumber) <= p.curToken.LineNumber
 //@   ensures [C18:pstate] PState(p) && PSame(p, old(p.l), old(p.l.input)) && PMaps(p, old(p.constants), old(p.inlineTextsSet), old(p.inlineTextCounts), old(p.inlineMovementsSet), old(p.inlineMovementCounts))
 //@   loopinv [C18:pstate-inv] PState(p) && PSame(p, old(p.l), old(p.l.input)) && PMaps(p, old(p.constants), old(p.inlineTextsSet), old(p.inlineTextCounts), old(p.inlineMovementsSet), old(p.inlineMovementCounts))
 //@ end
@@ -393,6 +419,7 @@ package parser
 
 //@ func (p *Parser) parseBlockStatement
 //@   include ParseFrame
+//@   requires [C18:start-token] 1 <= startToken.LineNumber && startToken.LineNumber <= startToken.EndLineNumber && startToken.LineNumber <= p.curToken.LineNumber
 //@   loopinv [C06:slot-inv] impData != nil && fresh(impData) && ImpOK(impData)
 //@   loopinv [C06:complete-inv] ImpSize(impData) == holes - old(holes)
 //@   ensures [C06:slot] result2 == nil ==> (ImpOK(result1) && (result1 == nil || fresh(result1)))
@@ -404,6 +431,7 @@ package parser
 
 //@ func (p *Parser) parseSwitchBlockStatement
 //@   include ParseFrame
+//@   requires [C18:start-token] 1 <= startToken.LineNumber && startToken.LineNumber <= startToken.EndLineNumber && startToken.LineNumber <= p.curToken.LineNumber
 //@   loopinv [C06:slot-inv] impData != nil && fresh(impData) && ImpOK(impData)
 //@   loopinv [C06:complete-inv] ImpSize(impData) == holes - old(holes)
 //@   ensures [C06:slot] result2 == nil ==> (ImpOK(result1) && (result1 == nil || fresh(result1)))
